@@ -227,6 +227,13 @@ pub fn run(thorough: bool) -> Report {
                     }
                 }
                 for (pi2, probe) in probes.iter().enumerate() {
+                    // a probe may leave the program running or awaiting input (GOTO into an
+                    // INPUT): the host breaks in before typing the next line, as the protocol requires
+                    for x in [&mut s, &mut base] {
+                        if x.state() != InterpreterState::Idle {
+                            let _ = x.apply(&Ev::Break);
+                        }
+                    }
                     let got = run_probe(&mut s, probe);
                     let want_base = run_probe(&mut base, probe);
                     hist.push(Ev::LineToIdle(probe.to_string()));
